@@ -2364,7 +2364,7 @@ def rand_socks_program(rng):
                   "cuts": [rng.choice([1, 2, 100, 1475, 4000]) for _ in range(rng.randint(0, 4))]}
             if cmd == "udp":
                 kw["ndgrams"] = rng.randint(1, 5)
-                kw["udp_via"] = rng.choice(["ip", "name", "mixed", "short-first"])
+                kw["udp_via"] = rng.choice(["ip", "name", "mixed", "short-first", "short-name-first"])
             add(**kw)
         elif r < 0.62:
             # random corruption of the negotiation bytes
@@ -2408,10 +2408,15 @@ def socks_sweep(path):
             for addr in (["ip", "name"] if ver == 5 else ["ip"]):
                 for pos in range(0, 22):
                     w(ver, [{"cmd": "connect", "addr": addr, "target": "up", "up": 5, "down": 5, "eof_at": pos}, good()])
+        # over-long fields: a length byte of 0x80..0xff followed by far more bytes than both 64 KiB buffers of a connection hold
+        for nm in (128, 200, 255):
+            w(5, [{"cmd": "connect", "addr": "ip", "target": "up", "up": 5, "down": 5, "mutate": "nmethods", "mutval": nm, "flood": 200000}, good()])
+        w(5, [{"cmd": "connect", "addr": "name", "target": "up", "up": 5, "down": 5, "mutate": "namelen", "mutval": 255, "flood": 200000}, good()])
+        w(4, [{"cmd": "connect", "addr": "ip", "target": "up", "up": 5, "down": 5, "mutate": "userid", "mutval": 65, "flood": 200000}, good()])
         w(5, [{"cmd": "connect", "addr": "name3", "target": "up", "up": 100, "down": 100}, good()])
         w(5, [{"cmd": "connect", "addr": "name1", "target": "up", "up": 100, "down": 100}, good()])
         w(5, [{"cmd": "connect", "addr": "name2", "target": "up", "up": 100, "down": 100}, good()])
-        for via in ("ip", "name", "mixed", "short-first"):
+        for via in ("ip", "name", "mixed", "short-first", "short-name-first"):
             w(5, [{"cmd": "udp", "addr": "ip", "target": "up", "ndgrams": 4, "udp_via": via}, good()])
         w(5, [{"cmd": "bind", "addr": "ip", "target": "up", "up": 0, "down": 500}, good()])
         w(4, [{"cmd": "bind", "addr": "ip", "target": "up", "up": 0, "down": 500}, good()])
